@@ -185,13 +185,11 @@ Eval vm_compute in (length cases, length bad, map fst (firstn 3 bad)).
     chk.cov["exhaustive"] = False
     chk.sample({"hour": 1416, "label": [str(Fraction(*x)) for x in conv[1416]]})
     chk.sample({"elapsed_hours": str(pts[len(pts) // 2]), "months": str(vals[len(pts) // 2])})
-    chk.cov["trusted_base"] = ["python datetime as the independent calendar oracle",
-                               "C19_generated_agrees_on_sample_partial is a computation on a sample, not the unbounded agreement"]
-    return chk.finish(assumptions=["theorems about hours_to_month are stated on the reference h2m_spec; the generated function is tied to it by "
-                                   "in-Coq evaluation on 7.3k points and by exact (Fraction) evaluation of the real code on this run's points"])
+    chk.cov["trusted_base"] = ["python datetime as the independent calendar oracle"]
+    return chk.finish(assumptions=["theorems about hours_to_month are stated on the function regenerated from output.py (exact rationals); "
+                                   "C19_hours_to_month_is_calendar_conversion proves it equal to the reference conversion for every rational hour count; "
+                                   "the real float code is compared with it by exact (Fraction) evaluation on this run's points"])
 
 
 def replay(payload):
-    from lib import Check
-    chk = Check("C19", "quick", payload.get("seed", 0))
-    return run(chk)
+    return "RERUN"      # vcheck re-runs this check with the recorded tier and seed and looks for the same violation
